@@ -15,7 +15,7 @@
     conforms to the declared argument types; when validation accepted the document, the
     observation equals the reference coercion (error <-> nothing called). *)
 From Coq Require Import List NArith ZArith Bool String.
-From ApiFu Require Import Base.Sexp Val.Values Val.CoerceModel Val.CoerceSpec Val.CoerceReasons.
+From ApiFu Require Import Base.Sexp Val.Values Val.FloatExact Val.CoerceModel Val.CoerceSpec Val.CoerceReasons Val.BridgeC04.
 Import ListNotations.
 Open Scope string_scope.
 Open Scope list_scope.
@@ -308,6 +308,41 @@ Fixpoint gval_has_nil (g : gval) : bool :=
   | _ => false
   end.
 
+(** every JSON number is a well-formed binary64 in canonical form (CoerceSameValue.jnum_wf) *)
+Fixpoint jnum_wf_b (j : jval) : bool :=
+  match j with
+  | JNum d => f64_wf d
+  | JList l => forallb jnum_wf_b l
+  | JObj kvs => forallb (fun p : name * jval => jnum_wf_b (snd p)) kvs
+  | _ => true
+  end.
+
+Definition scalar_kind_eqb (a b : scalar_kind) : bool :=
+  match a, b with
+  | KInt, KInt | KFloat, KFloat | KString, KString | KBoolean, KBoolean | KID, KID
+  | KDateTime, KDateTime | KLongInt, KLongInt | KCustom, KCustom => true
+  | _, _ => false
+  end.
+
+Fixpoint gval_mentions_time (g : gval) : bool :=
+  match g with
+  | GTime _ => true
+  | GList l => (fix go (l : list gval) : bool := match l with [] => false | x :: r => gval_mentions_time x || go r end) l
+  | GMap kvs => (fix go (l : list (name * gval)) : bool :=
+                   match l with [] => false | (_, x) :: r => gval_mentions_time x || go r end) kvs
+  | GTagged _ v => gval_mentions_time v
+  | _ => false
+  end.
+Fixpoint gval_mentions_int64 (g : gval) : bool :=
+  match g with
+  | GInt64 _ => true
+  | GList l => (fix go (l : list gval) : bool := match l with [] => false | x :: r => gval_mentions_int64 x || go r end) l
+  | GMap kvs => (fix go (l : list (name * gval)) : bool :=
+                   match l with [] => false | (_, x) :: r => gval_mentions_int64 x || go r end) kvs
+  | GTagged _ v => gval_mentions_int64 v
+  | _ => false
+  end.
+
 Section Case.
   Variable E : env.
   Variable T : list (bytes * option bytes).
@@ -366,7 +401,7 @@ Section Case.
                                 (* static_dynamic_agree, on the reference side: after validation a
                                    coercion can only be missing for one of the run-time reasons *)
                                 match ref_vv with
-                                | Some v => if null_variable v args || absent_item_variable v args || refusing_hook E then None
+                                | Some v => if null_variable v args || absent_item_variable v args || hook_reached_args E argdefs args then None
                                             else Some (v_oracle_fail "runtime-error-without-runtime-reason" [])
                                 | None => None
                                 end
@@ -435,6 +470,7 @@ Section Case.
     let var_default := existsb (fun d => match vd_default d with Some _ => true | None => false end) defs in
     (if site_field then ["site-field"] else ["site-directive"]) ++
     (if builtin then ["site-skip-include"] else []) ++
+    (if bridgeable E then ["c04-bridge-evaluated"] else ["c04-bridge-skipped-datetime-longint"]) ++
     (if st then [] else ["static-reject"]) ++
     (if st then match vv with
                 | Ok v => match am with
@@ -442,17 +478,31 @@ Section Case.
                           | Err => ["argument-error"] ++
                                    (if null_variable v args then ["reason-null-variable"] else []) ++
                                    (if absent_item_variable v args then ["reason-absent-item-variable"] else []) ++
-                                   (if refusing_hook E then ["reason-hook-in-schema"] else [])
+                                   (if hook_reached_args E argdefs args then ["reason-hook-reached"] else [])
                           | Panic => ["panic"]
                           end
                 | Err => ["variable-error"] ++
-                         (if bad_variable_value all_fixed E dt defs raw then ["reason-bad-variable-value"] else ["reason-hook-on-default"])
+                         (if bad_variable_value all_fixed E dt defs raw then ["reason-bad-variable-value"] else []) ++
+                         (if hook_reached_defaults E defs raw then ["reason-hook-reached-by-default"] else [])
                 | Panic => ["panic"]
                 end else []) ++
     (if top_var then ["variable"] else []) ++ (if nested then ["variable-nested"] else []) ++
     (if negb has_vars then ["literal-only"] else []) ++
     (if has_default then ["argument-default"] else []) ++ (if var_default then ["variable-default"] else []) ++
     (if null_var then ["null-variable"] else []) ++
+    (let leaf_is := fun k => existsb (fun ad => match leaf_type (in_type (snd ad)) with
+                                               | StNamed n => match aget n E with
+                                                              | Some (TScalar k') => scalar_kind_eqb k k'
+                                                              | _ => false
+                                                              end
+                                               | _ => false
+                                               end) argdefs in
+     (if leaf_is KDateTime then ["leaf-datetime"] else []) ++ (if leaf_is KLongInt then ["leaf-longint"] else [])) ++
+    (match am with
+     | Ok m => (if existsb (fun p => gval_mentions_time (snd p)) m then ["called-with-time"] else []) ++
+               (if existsb (fun p => gval_mentions_int64 (snd p)) m then ["called-with-int64"] else [])
+     | _ => []
+     end) ++
     (if existsb (fun p => negb (existsb (fun d => bytes_eqb (fst p) (vd_name d)) defs)) raw then ["undeclared-variable-value"] else []) ++
     (if existsb (fun d => negb (type_known E (vd_type d))) defs then ["variable-of-unknown-or-output-type"] else []) ++
     (match o_static o, ref with
@@ -487,6 +537,7 @@ Definition check (c : sexp) : sexp :=
               if negb (env_closed E && forallb (fun ad => sty_closed E (in_type (snd ad))) argdefs) then v_bad "env-not-closed"
               else if negb (env_ok E && forallb (fun ad => default_ok E (snd ad)) argdefs) then v_bad "env-not-ok"
               else if negb (forallb (fun p => jval_ok (snd p)) raw && negb (has_dup (map fst raw))) then v_bad "variables-not-wf"
+              else if negb (forallb (fun p => jnum_wf_b (snd p)) raw) then v_bad "json-number-not-a-canonical-binary64"
               else if negb (forallb (fun s => ahas s T) strings) then v_bad "dt-table-incomplete"
               else if existsb (fun d => match vd_default d with Some l => match lit_vars l with [] => false | _ => true end | None => false end) defs
                    then v_bad "variable-in-default"
@@ -505,6 +556,18 @@ Definition check (c : sexp) : sexp :=
                               | Some v => ref_argument_values E dt argdefs (map (fun p => match p with (k, l) => (k, abs_lit v l) end) args)
                               | None => None
                               end in
+                (* C05 x C04: the two transcriptions of validateCoercion agree on every literal *)
+                let bridge_ok :=
+                  negb (bridgeable E)
+                  || (forallb (fun a : name * lit => match aget (fst a) argdefs with
+                                                     | Some d => bridge_agrees E dt (snd a) (in_type d)
+                                                     | None => true
+                                                     end) args
+                      && forallb (fun d => match vd_default d with
+                                           | Some l => negb (type_known E (vd_type d)) || bridge_agrees E dt l (vd_type d)
+                                           | None => true
+                                           end) defs) in
+                if negb bridge_ok then v_mismatch "c04-validator-model-disagrees" [] else
                 match oracle E site_field argdefs args raw o ref_vv ref_am with
                 | Some v => v
                 | None =>
